@@ -127,22 +127,24 @@ type sweepLayer struct {
 // at no cost), so that chains of two (thorough: three) search operators - embeddedDocument / compound / facet operator
 // around every other operator - meet every leaf class.
 func rootedLayers(thorough bool, fl []Flags) []sweepLayer {
-	b := 2
-	if thorough {
-		b = 3
-	}
+	// quick: 2 operators below $search, 1 below $searchMeta, reduced leaf alphabet; thorough: 2 below both with the full
+	// leaf alphabet (three operators deep below a stage turned out to cost hours for little: the aliasing defect it was
+	// built for needs two)
 	var ls []sweepLayer
 	for _, r := range []string{"$search", "$searchMeta"} {
-		bb := b
+		bb, leaves := 2, 1
 		if r == "$searchMeta" && !thorough {
 			bb = 1
 		}
-		ls = append(ls, sweepLayer{"rooted:" + r, GenOpts{OneGate: true, LeafSet: 1, Slots: []int{4}, RootStage: r}, bb, fl})
+		if thorough {
+			leaves = 0
+		}
+		ls = append(ls, sweepLayer{"rooted:" + r, GenOpts{OneGate: true, LeafSet: leaves, Slots: []int{4}, RootStage: r}, bb, fl})
 	}
 	return ls
 }
 
-const rootedRule = "; search stages as the root: every derivation with <=2 (thorough 3) non-default search operators below $search and <=1 (thorough 3) below $searchMeta (the deviation budget starts below the stage), reduced leaf alphabet incl. $date / $oid / $binary"
+const rootedRule = "; search stages as the root: every derivation with <=2 non-default search operators below $search and <=1 (thorough 2) below $searchMeta (the deviation budget starts below the stage), reduced (thorough: full) leaf alphabet incl. $date / $oid / $binary"
 
 type sweepCase struct {
 	C     *Case
